@@ -19,7 +19,7 @@ PROPERTY = "C16"
 RULE = ("Part A (single thread, schedule enumeration): k in {2,3} live iterators drawn from {same compiled query & same value, same query & "
         "different values, different queries of one environment, different environments}; EVERY interleaving of next() calls (including "
         "the call that raises StopIteration) when the multinomial is <= 3000, else 300 random schedules; optionally one iterator is "
-        "abandoned (close() or dropped + gc.collect()) at a random prefix. Oracle: each iterator yields exactly its solitary "
+        "abandoned (close() or dropped + gc.collect()) at a random prefix, and in 30% of the schedules an unrelated use of the library happens between two steps (a customised environment subclass that replaces length/count/match is instantiated and used, a plain environment is created, another query is compiled and abandoned or rejected on the same environment, a module-level find). Oracle: each iterator yields exactly its solitary "
         "(location, value identity) sequence. Part B (threads): 4-8 threads over one shared environment compile and evaluate (list and "
         "step-wise), iterators created in one thread are advanced in another after a lock hand-off; sys.setswitchinterval(1e-6) and a "
         "sys.monitoring LINE callback that yields the GIL with seeded probability on lines of the package. Oracle: the sequential "
@@ -112,12 +112,18 @@ def _multiset_perms(items):
         yield tuple(items)
 
 
-def run_schedule(sources, sched, abandon=None):
-    """sources: list of (compiled query, value). Returns per-iterator yielded sequences (None if errored)."""
+def run_schedule(sources, sched, abandon=None, churn=None):
+    """sources: list of (compiled query, value). Returns per-iterator yielded sequences (None if errored).
+    churn = (step, callable): unrelated use of the library made between two steps of the schedule."""
     its = [iter(q.finditer(v)) for q, v in sources]
     out = [[] for _ in sources]
     done = [False] * len(sources)
     for step, i in enumerate(sched):
+        if churn is not None and step == churn[0]:
+            try:
+                churn[1]()
+            except Exception:  # noqa: BLE001
+                pass
         if abandon is not None and step == abandon[1]:
             j = abandon[0]
             if not done[j]:
@@ -140,10 +146,50 @@ def run_schedule(sources, sched, abandon=None):
     return out, done
 
 
+def churn_actions(jp, env):
+    """Unrelated uses of the library that may happen while iterators are suspended."""
+    from jsonpath_rfc9535 import JSONPathEnvironment, NOTHING
+    from jsonpath_rfc9535.function_extensions import ExpressionType, FilterFunction
+
+    class OtherLength(FilterFunction):
+        arg_types = [ExpressionType.VALUE]
+        return_type = ExpressionType.VALUE
+
+        def __call__(self, obj):
+            return len(obj) + 1 if isinstance(obj, str) else NOTHING
+
+    class OtherCount(FilterFunction):
+        arg_types = [ExpressionType.NODES]
+        return_type = ExpressionType.VALUE
+
+        def __call__(self, nodes):
+            return 100 + len(nodes)
+
+    class CustomEnv(JSONPathEnvironment):
+        max_recursion_depth = 3
+        nondeterministic = False
+
+        def setup_function_extensions(self):
+            super().setup_function_extensions()
+            self.function_extensions["length"] = OtherLength()
+            self.function_extensions["count"] = OtherCount()
+            self.function_extensions["match"] = OtherLength()
+
+    data = [{"name": "ab", "a": 1, "s": "b"}, {"name": "abcd", "a": [1, 2]}, "ab", [1, 2]]
+    return {
+        "new-customised-environment": lambda: CustomEnv().find("$[?length(@.name) == 3 || count(@.*) > 100]", data),
+        "new-plain-environment": lambda: JSONPathEnvironment().find("$[?length(@.name) == 2]", data),
+        "compile-and-abandon-on-same-environment": lambda: env.compile("$..[?@.a == 1 || @.a == 1.0 || @.a == true || search(@.s, 'b')]").find_one(data),
+        "rejected-compile-on-same-environment": lambda: env.compile("$[?@.name == 'ab\x01' || length(@.name, 1)]"),
+        "module-level-find": lambda: jp.find("$..[?length(@.name) == 4]..*", data),
+    }
+
+
 def part_a(jp, rec, R, n_cases):
     from jsonpath_rfc9535 import JSONPathEnvironment
     env = JSONPathEnvironment()
     env2 = JSONPathEnvironment()
+    churns = churn_actions(jp, env)
     for _ in range(n_cases):
         k = R.choice([2, 2, 3])
         mode = R.choice(["same-query-same-value", "same-query-different-values", "different-queries-one-env", "different-envs"])
@@ -190,7 +236,12 @@ def part_a(jp, rec, R, n_cases):
             abandon = None
             if R.random() < 0.15:
                 abandon = (R.randrange(k), R.randrange(len(sched)), R.choice(["close", "drop"]))
-            got, done = run_schedule([(q, v) for q, v, _ in srcs], sched, abandon)
+            churn = None
+            if R.random() < 0.3:
+                churn_name = R.choice(sorted(churns))
+                churn = (R.randrange(len(sched)), churns[churn_name])
+                rec.feat("churn:" + churn_name)
+            got, done = run_schedule([(q, v) for q, v, _ in srcs], sched, abandon, churn)
             rec.monitor("M-sched")
             alternates = sum(1 for a, b in zip(sched, sched[1:]) if a != b) >= 2 and sum(1 for s in solo if s) >= 2
             rec.case((tuple(t for _, _, t in srcs), tuple(D.short(v, 500) for _, v, _ in srcs), sched, abandon), alternates)
@@ -201,7 +252,10 @@ def part_a(jp, rec, R, n_cases):
                         rec.violation("abandoned-iterator-prefix-differs", witness(srcs, sched, abandon, i, got[i], want))
                     continue
                 if got[i] != want:
-                    rec.violation("interleaved-sequence-differs", witness(srcs, sched, abandon, i, got[i], want))
+                    w_ = witness(srcs, sched, abandon, i, got[i], want)
+                    if churn is not None:
+                        w_["unrelated_library_use_before_step"] = [churn[0], churn_name]
+                    rec.violation("interleaved-sequence-differs", w_)
                     break
         rec.feat("mode:" + mode)
         rec.feat("schedules", nsched)
